@@ -105,6 +105,7 @@ func (g *gen) runActivation() {
 		sh := nsh - 1
 		if len(j.seq) == 0 {
 			g.emitf("registry %d", sh)
+			g.emitf("registry %d second", sh)
 		}
 		for _, f := range fns {
 			g.emitf("active %d %s", sh, f)
@@ -141,6 +142,7 @@ func (g *gen) runActivation() {
 		}
 	})
 	g.emitf("registry %d", g.nsh-1)
+	g.emitf("registry %d second", g.nsh-1)
 	g.emit("active 0 NoSuchFunction")
 }
 
